@@ -17,12 +17,21 @@ pub fn generate(seed: u64, tier: &str, out: &mut dyn std::io::Write) {
     let rtsig = libc::SIGRTMIN() + 1;
     for i in 0..n {
         let mut r = Rng::for_case(seed, 3, i);
-        let scen = *r.pick(&["ok", "destfail", "destfail", "destpanic", "badapp", "nostop", "ok-signals", "ok-signals", "destfail-signals", "stoptimeout", "stoptimeout-signals", "nostop-storm", "nostop-storm"]);
-        let nblock = r.range(0, 5) as usize;
+        let scen = *r.pick(&["ok", "destfail", "destfail", "destpanic", "badapp", "nostop", "ok-signals", "ok-signals", "destfail-signals", "stoptimeout", "stoptimeout-signals", "nostop-storm", "nostop-storm", "zombie", "zombie-signals"]);
+        let mut nblock = r.range(0, 5) as usize;
+        let zombie = scen.starts_with("zombie");
+        if zombie {
+            nblock = nblock.max(1);
+        }
         let nspin = r.range(0, 2) as usize;
         let mut args = vec!["-t".to_string(), nblock.to_string(), "-s".to_string(), nspin.to_string(), "-g".to_string()];
         // a sandbox-helper-like thread (null stack pointer): attached, then skipped — it must be let go as well.
         // (No signals for it: a handler cannot run without a stack.)
+        // the thread-group leader has exited: it is a zombie that is never seen stopped (the stop request times out
+        // after the signal was sent) and cannot be attached to; the process lives on in its other threads
+        if zombie {
+            args.push("-Z".into());
+        }
         let mut helper_idx: Option<usize> = None;
         if nblock >= 1 && r.chance(1, 3) {
             let k = r.range(1, nblock as u64) as usize;
@@ -35,7 +44,7 @@ pub fn generate(seed: u64, tier: &str, out: &mut dyn std::io::Write) {
             Err(_) => continue,
         };
         let mut cfg = DumpCfg::default();
-        cfg.blamed = t.threads[0].tid;
+        cfg.blamed = t.threads[if zombie { 1 } else { 0 }].tid;
         let mut dest = RecDest::new(vec![], 0);
         let call = r.below(46) as usize;
         match scen {
@@ -45,7 +54,9 @@ pub fn generate(seed: u64, tier: &str, out: &mut dyn std::io::Write) {
             "destpanic" => dest.panic_at = Some(call),
             "badapp" => cfg.app_memory.push((0x10, 64)),
             // the SIGSTOP is sent, but the dumper gives up waiting for it to take effect
-            "stoptimeout" | "stoptimeout-signals" => cfg.stop_timeout_ns = Some(0),
+            "stoptimeout" | "stoptimeout-signals" => cfg.stop_timeout_ns = Some(*r.pick(&[0u64, 0, 1, 300_000])),
+            // any waiting time: none, less than one polling interval, a fraction of intervals, whole intervals
+            "zombie" | "zombie-signals" => cfg.stop_timeout_ns = Some(*r.pick(&[0u64, 1, 300_000, 2_500_000, 3_000_000, 1_000_001])),
             _ => {}
         }
         // signals placed at hook points
@@ -54,8 +65,8 @@ pub fn generate(seed: u64, tier: &str, out: &mut dyn std::io::Write) {
         if with_signals {
             let sent = sent.clone();
             let pid = t.pid;
-            let tids: Vec<i32> = t.threads.iter().filter(|x| !x.spin && Some(x.idx) != helper_idx).map(|x| x.tid).collect();
-            let plan: Vec<(String, i32, u32)> = (0..r.range(1, 6))
+            let tids: Vec<i32> = t.threads.iter().filter(|x| !x.spin && Some(x.idx) != helper_idx && !(zombie && x.idx == 0)).map(|x| x.tid).collect();
+            let plan: Vec<(String, i32, u32)> = (0..(if tids.is_empty() { 0 } else { r.range(1, 6) }))
                 .map(|_| {
                     let point = (*r.pick(&["dump_start", "threads_enumerated", "before_attach", "threads_suspended", "before_resume", "after_resume"])).to_string();
                     (point, *r.pick(&tids), r.range(1, 3) as u32)
